@@ -574,12 +574,15 @@ GATE_TABLE = {
 
 
 def _gated(ev):
-    return any(facts.gate_term_value(g[0], (1, 0)) is not None for g in ev.guards)
+    return any(facts.mentions_version(g[0]) and any(facts.gate_term_value(g[0], v) is not None for v in facts._PROBE_VERSIONS)
+               for g in ev.guards)
 
 
 def _matches(marker, ev):
     if marker == "any":
         return True
+    if marker == "refile":
+        return ev.kind == "call" and ev.value[1][0] == "attr" and ev.value[1][2] == "add" and len(ev.loops) >= 4
     if marker == "raise":
         return ev.kind == "raise"
     if marker.startswith("call:"):
@@ -611,10 +614,15 @@ def r_gate(model, rep, tier, only=None):
     # a helper the rules do not know is analysed as part of its callers (its gated events are inlined there)
     for q_ in [q_ for q_ in funcs if q_ not in KNOWN_FUNCS and q_ not in GATE_TABLE]:
         del funcs[q_]
-    for q in sorted(set(funcs) | set(GATE_TABLE)):
+    table = dict(GATE_TABLE)
+    if "_add_1_1" not in model.cls("images.Images").methods:
+        # the legacy converter folded into the reader: the re-filing loop (an add() inside one more loop than the record loops)
+        # is what is gated
+        table["images.Images.deserialize"] = [("refile", "<=1.1", "src images re-filed under binary arches")]
+    for q in sorted(set(funcs) | set(table)):
         if only is not None and q not in only:
             continue
-        want = GATE_TABLE.get(q)
+        want = table.get(q)
         if q not in funcs:
             rep.ob("R-GATE", "%s:gates" % q, False, site="productmd/%s.py" % q.split(".")[0],
                    msg="documented version gate(s) (%s) vanished" % "; ".join(w[2] for w in want))
